@@ -4,7 +4,7 @@ import storefam, casefam, fsfam
 import agentfam as af
 
 BAD_NAMES = ["../sib/victim", "./u1", "u1/", "x/../u1", "", "-u1", ".u1", "_u1", "@u1", "u1\n", "u 1", "u:1", "u1\x00", "ü1",
-             "/etc/passwd", "..", "a/b", "U1/../u1", "u1/."]
+             "/etc/passwd", "..", "a/b", "U1/../u1", "u1/.", "mar\u212a", "ro\u017fe"]
 
 
 def frontend_scenarios():
